@@ -184,10 +184,27 @@ pub fn run_case(case: &Value, out: &mut Out) {
     if case["meta"].as_bool().unwrap_or(false) {
         out.ev(meta_event(&reader));
     }
+    // "other": a second reader over ANOTHER file, used on the same thread; it is asked every call first
+    // (its answers are not recorded: the answers of `reader` must not depend on them)
+    let mut other: Option<Mp4Reader<Sparse>> = if case["other"].is_object() {
+        let ob = from_bytes(&case["other"]["file"]);
+        let oi: Option<Vec<u8>> = if case["other"]["init"].is_array() { Some(from_bytes(&case["other"]["init"])) } else { None };
+        open_reader(&ob, oi.as_deref()).ok()
+    } else {
+        None
+    };
     if let Some(calls) = case["calls"].as_array() {
         for c in calls {
             let t = c["t"].as_u64().unwrap_or(0) as u32;
             let k = c["k"].as_u64().unwrap_or(0) as u32;
+            if let Some(o) = other.as_mut() {
+                let _ = match c["op"].as_str().unwrap_or("") {
+                    "read" => guarded(|| o.read_sample(t, k).map(|_| ())),
+                    "offset" => guarded(|| o.sample_offset(t, k).map(|_| ())),
+                    "count" => guarded(|| o.sample_count(t).map(|_| ())),
+                    _ => Ok(Ok(())),
+                };
+            }
             match c["op"].as_str().unwrap_or("") {
                 "read" => out.ev(read_event(&mut reader, t, k)),
                 "offset" => out.ev(offset_event(&mut reader, t, k)),
